@@ -3,6 +3,7 @@ package rules
 import (
 	"fmt"
 	"go/token"
+	"go/types"
 	"strings"
 
 	"aghverif/core"
@@ -16,6 +17,7 @@ func init() {
 		Run: runC12,
 		Explanation: "Login throttling and session lifetime. Decided: (D1) check before evaluate: the only path from the login route to the password evaluation (newCookie -> findUser/bcrypt) passes the rate limiter's check with no time left (or no limiter configured); (D2) one unspoofable key: the value given to check and the address given to newCookie (used for inc/remove) are the same value whose only origin is netutil.SplitHost(r.RemoteAddr) — never a request header; " +
 			"(D3) a failed evaluation always increments the counter, a successful one removes it before the session is created, and success never increments; the limiter's map is touched only under its lock; (D4) a session authenticates only when found and not expired; the expired path deletes it from the map and from the file; logout deletes the map entry first and then the file record; on start only unexpired sessions are loaded; the session map is touched only under Auth.lock. " +
+			"the database record of a session is addressed by the decoded token of the text that addresses the table entry; (D5) failure records are removed only by the expiry cleanup (on the time-is-up edge) and by the successful-login reset. " +
 			"Not decided: attempt counting (off-by-one, window of the first failure), durations and clock behaviour, bbolt durability.",
 		RuleText:    "CFG edge guards, provenance slices, must-pass ordering and lock-dominance on SSA.",
 		Assumptions: []string{"golang.org/x/crypto/bcrypt and bbolt behave as documented"},
@@ -400,4 +402,99 @@ func c12Sessions(c *Ctx) {
 	}
 	c12UnderLock(c, "home.Auth", "sessions", "lock", []string{"home.InitAuth", "(*home.Auth).loadSessions", "(*home.Auth).loadSessions$1", "(*home.Auth).loadSessions$2"})
 	_ = strings.TrimSpace
+	sessionKeyForm(c, "C12-D4")
+	c12FailureRecords(c)
+}
+
+// sessionKeyForm: a session lives in the table under the hex text of its
+// token and in the database file under the raw token.  Everybody who goes
+// from the cookie text to the file (refresh, expiry, logout) must therefore
+// pass hex.DecodeString(text) of the very text it used for the table; passing
+// the text itself addresses a record that does not exist, so a logged-out or
+// expired session stays in the file and is valid again after a restart.
+// Shared by C12-D4 and C11-D8.
+func sessionKeyForm(c *Ctx, rule string) {
+	p, r := c.P, c.R
+	n := 0
+	for _, fn := range p.ModFnsIn("home") {
+		for _, call := range core.Calls(fn) {
+			k := call.Key
+			if k != "(*home.Auth).storeSession" && k != "(*home.Auth).removeSessionFromFile" {
+				continue
+			}
+			// only where the session is in hand as text (a string parameter or map key)
+			var text ssa.Value
+			for _, prm := range fn.Params {
+				if bt, ok := prm.Type().Underlying().(*types.Basic); ok && bt.Kind() == types.String {
+					text = prm
+				}
+			}
+			if text == nil {
+				continue
+			}
+			n++
+			key := call.Arg(1)
+			okKey := false
+			if ex, ok := core.ResolveCellLoad(key).(*ssa.Extract); ok && ex.Index == 0 {
+				if dc, ok := ex.Tuple.(*ssa.Call); ok && core.CalleeKey(dc.Common()) == "encoding/hex.DecodeString" && dc.Call.Args[0] == text {
+					okKey = true
+				}
+			}
+			r.Check(okKey, rule, fmt.Sprintf("session-file-key:%s@%s", strings.TrimPrefix(k, "(*home.Auth)."), core.FuncKey(fn)), p.InstrPos(call.Instr),
+				"the database record is addressed by the decoded token of the same session text that addresses the table entry",
+				"the database record is not addressed by hex.DecodeString of the session text: the table entry and the file record of one session diverge (a logged-out or expired session survives in the file and authenticates again after a restart)")
+		}
+	}
+	r.Floor(rule, "session-file-key-sites", n, 3)
+}
+
+// c12FailureRecords: D5.  The failure counters are what stops guessing; a
+// record may disappear only when its time is up (cleanup) or through remove
+// (successful login, checked by D3).  Any other deletion restarts somebody's
+// count.
+func c12FailureRecords(c *Ctx) {
+	p, r := c.P, c.R
+	n := 0
+	for _, fn := range p.ModFnsIn("home") {
+		fk := core.FuncKey(fn)
+		for _, b := range fn.Blocks {
+			for _, in := range b.Instrs {
+				what := ""
+				switch x := in.(type) {
+				case *ssa.Call:
+					if bi, ok := x.Call.Value.(*ssa.Builtin); ok && (bi.Name() == "delete" || bi.Name() == "clear") && len(x.Call.Args) > 0 {
+						if fr, _, ok := core.LoadedField(x.Call.Args[0]); ok && fr.Type == "home.authRateLimiter" && fr.Field == "failedAuths" {
+							what = bi.Name()
+						}
+					}
+				case *ssa.Store:
+					if fr, ok := core.FieldOfAddr(x.Addr); ok && fr.Type == "home.authRateLimiter" && fr.Field == "failedAuths" && fk != "home.newAuthRateLimiter" {
+						what = "replace"
+					}
+				}
+				if what == "" {
+					continue
+				}
+				n++
+				key := fmt.Sprintf("failure-record-removal:%s:%s", fk, what)
+				switch {
+				case fk == "(*home.authRateLimiter).remove" && what == "delete":
+					r.Ok("C12-D5", key, p.InstrPos(in), "removal on successful login (its call site is checked by D3)")
+				case fk == "(*home.authRateLimiter).cleanupLocked" && what == "delete":
+					g, ng := core.CondEdges(fn, func(at core.Atom) (bool, bool) {
+						if at.Op != token.ILLEGAL {
+							return false, false
+						}
+						call, _, ok := core.CallResult(at.Base)
+						return ok && core.CalleeKey(call.Common()) == "(time.Time).After", true
+					})
+					off, _ := core.UnguardedSinks(fn, func(i2 ssa.Instruction) bool { return i2 == in }, g)
+					r.Check(ng > 0 && len(off) == 0, "C12-D5", key, p.InstrPos(in), "the cleanup removes a record only after its time is up", "the cleanup removes records whose time is not up: the count of an address below the limit restarts")
+				default:
+					r.Fail("C12-D5", key, p.InstrPos(in), fk+" removes failure records outside the expiry cleanup and the successful-login reset: an address that is about to be blocked gets a fresh count")
+				}
+			}
+		}
+	}
+	r.Floor("C12-D5", "failure-record-removals", n, 2)
 }
